@@ -5,7 +5,7 @@
    check, rewritten on every run of ./check C20).  Tied to the code by ./check C20: the printed model files are
    compared byte for byte with the files the real exportIspd writes; the real coloquinte.py reads them and is
    compared with the model's reader; the round trip is re-evaluated on the real code.
-   The exporter modelled is the REPAIRED one (branch agent/C20: "fix: exportIspd drops the row orientation",
+   The exporter modelled is the REPAIRED one (/repo main 77fa5a3, f1ef6a6, 120fb14, 0e7a1bc: "fix: exportIspd drops the row orientation",
    "fix: exportIspd writes pin offsets of the oriented cell"); the unchanged tree is refuted below (finding F14). *)
 From Coq Require Import String.
 From Coq Require Import List ZArith Lia Bool.
@@ -14,10 +14,14 @@ Require Import CV.Orient CV.Hpwl CV.Ispd CV.IspdProofs CV.Bindings_gen.
 Local Open Scope string_scope.
 Local Open Scope Z_scope.
 
-(* [F] round trip, for every circuit of the domain [wf] (eight real orientations for cells and rows; every pin on
-   an existing cell with |offset - size/2| < 10^5 so that operator<<(double) is exact; no empty net; one row
-   height, rows present, and not (row height 0 with a cell of height <= 0) -- read_ispd refuses the rest) and
-   every file name: the package's own reader applied to the exported files succeeds and returns a circuit equal
+(* [F for the TOKEN-LEVEL model] round trip, for every circuit of the domain [wf] (eight real orientations for cells
+   and rows; every pin on an existing cell with |offset - size/2| < 10^5 -- the range in which operator<<(double) is
+   exact, a fact carried by the byte-for-byte tie only: the token model ASSUMES print/parse inverse (tok_int (TInt z) =
+   Some z, tok_float2 (THalf k) = Some k), no lemma relates print_line / print_half to the reader and text_exact is not
+   used by this proof; no empty net; one row height, rows present, and not (row height 0 with a cell of height <= 0) --
+   read_ispd refuses the rest, so wf is narrower than "all circuits the format can carry") and
+   every file name TOKEN (a name is an opaque TFile token: _read_aux's split() and os.path.join are not modelled, so for
+   the real code the claim is restricted to names without whitespace; names with a directory part: finding F27, fixed): the package's own reader applied to the exported files succeeds and returns a circuit equal
    to the original on cell sizes, fixed flags, positions, orientations, net connectivity, pin offsets, row
    geometry and row orientation ([project]; cell_is_obstruction, polarity and net weights are not carried by
    the format and are not claimed). *)
